@@ -13,9 +13,11 @@ CONSTANTS MaxAllow,      \* max number of routes in an allow-list
           MaxAllowLen,   \* max length of an allow-listed route
           MaxCandLen,    \* max length of a candidate route
           Senders, EmitTests
-VARIABLES t, phase, sid, par
-vars == <<t, phase, sid, par>>
-View == <<t, phase>>
+VARIABLES t, phase, sid, par,
+          prev   \* history: the allow-list that was replaced (part of the VIEW, so that what follows a replacement is explored
+                 \* for EVERY former list, not only for the first one TLC happens to reach the new list from)
+vars == <<t, phase, sid, par, prev>>
+View == <<t, phase, prev>>
 T0 == 1700000000
 
 Hops == {[pool |-> p, din |-> d[1], dout |-> d[2]] : p \in {1, 2}, d \in {<<"uosmo", "IBCTIA">>, <<"IBCTIA", "uusdc">>}}
@@ -30,7 +32,7 @@ AllowLists == {<< >>, << << >> >>} \cup {<<r>> : r \in RoutesUpTo(MaxAllowLen) \
 Denoms == {"uosmo", "IBCTIA", "uusdc"}
 
 Init == /\ t = [inst |-> TRUE, admin |-> "admin", pending |-> OwnNone, minTime |-> OwnNoTime, trader |-> "trader", routes |-> << >>]
-        /\ phase = 0 /\ sid = 0 /\ par = 0
+        /\ phase = 0 /\ sid = 0 /\ par = 0 /\ prev = << >>
         /\ (EmitTests => /\ TLCSet(1, 0) /\ PrintT("MODEL " \o ToJson([kind |-> "treasury"])))
 
 Digest(r) == <<r.ok, r.t.trader, Len(r.t.routes), [i \in DOMAIN r.msgs |-> r.msgs[i].k]>>
@@ -67,24 +69,31 @@ Do(call) ==
      ELSE sid' = 0
 
 \* phase 0: the admin (or somebody else) installs an allow-list / a trader; phase 1: everything else
-Configure == /\ phase = 0 /\ phase' = 1
+Configure == /\ phase = 0 /\ phase' = 1 /\ UNCHANGED prev
              /\ \E s \in Senders, al \in AllowLists :
                   Do([m |-> "t_update_config", s |-> s, has_trader |-> FALSE, trader |-> "", tvalid |-> TRUE,
                       has_routes |-> TRUE, routes |-> al])
-Retrader  == /\ phase = 1 /\ UNCHANGED phase
+\* ... and ONE later replacement of the allow-list by the admin: what was allowed before and is not any more must be
+\* refused from then on (phase 2 offers the same swaps / spends as phase 1)
+Shrunk(rs) == ({<< >>} \cup {<<rs[i]>> : i \in DOMAIN rs}) \ {rs}
+Reconfigure == /\ phase = 1 /\ phase' = 2 /\ prev' = t.routes
+               /\ \E al \in Shrunk(t.routes) :
+                    Do([m |-> "t_update_config", s |-> t.admin, has_trader |-> FALSE, trader |-> "", tvalid |-> TRUE,
+                        has_routes |-> TRUE, routes |-> al])
+Retrader  == /\ phase = 1 /\ UNCHANGED <<phase, prev>>
              /\ \E s \in Senders, x \in {"u1", "trader"} :
                   Do([m |-> "t_update_config", s |-> s, has_trader |-> TRUE, trader |-> x, tvalid |-> TRUE,
                       has_routes |-> FALSE, routes |-> << >>])
-Swap      == /\ phase = 1 /\ UNCHANGED phase
+Swap      == /\ phase \in {1, 2} /\ UNCHANGED <<phase, prev>>
              /\ \E s \in Senders, r \in RoutesUpTo(MaxCandLen), d \in Denoms, dir \in {"t_swap_in", "t_swap_out"} :
                   Do([m |-> dir, s |-> s, route |-> r, den |-> d, amt |-> 7, limit |-> 3])
-Spend_    == /\ phase = 1 /\ UNCHANGED phase
+Spend_    == /\ phase = 1 /\ UNCHANGED <<phase, prev>>
              \* receivers: a protocol-chain account, a native-chain account, something that is no address, and addresses whose
              \* prefix merely starts with the right one (osmovaloper..., celestiavaloper...)
              /\ \E s \in Senders, rc \in {"u1", "n:u1", "osmo1bad", "ov:u1", "val1"}, ch \in {"", EmptyChannel, "channel-1"} :
                   Do([m |-> "t_spend", s |-> s, den |-> "IBCTIA", amt |-> 1, receiver |-> rc, channel |-> ch,
                       rosmo |-> rc = "u1", rcel |-> rc = "n:u1"])
-Next == Configure \/ Retrader \/ Swap \/ Spend_
+Next == Configure \/ Reconfigure \/ Retrader \/ Swap \/ Spend_
 Spec == Init /\ [][Next]_vars
 
 \* C13 (design level): a swap message is emitted only for the trader along an allow-listed route
